@@ -1,35 +1,24 @@
 /-
-Tier N: format-information placement. For each of the 40 sides and each of the 32 format words the
-crate can write, the last store `create_matrix_format_info` makes to each ISO position of Figure 25
-(both copies, most significant bit first) is a Format-typed module carrying that bit of the word;
-every store goes to an ISO format position, inside the square.
+Tier K (since round 8; was tier N): format-information placement, all 40 sides x 32 format words, assembled from the
+eight kernel-evaluated pieces in Finite/FormatPosK (`decide +kernel`, five versions each, built in parallel).
 -/
-import FastQr.Model.Template
-import FastQr.Spec.Regions
+import FastQr.Finite.Pieces
+import FastQr.Finite.FormatPosK.P0
+import FastQr.Finite.FormatPosK.P1
+import FastQr.Finite.FormatPosK.P2
+import FastQr.Finite.FormatPosK.P3
+import FastQr.Finite.FormatPosK.P4
+import FastQr.Finite.FormatPosK.P5
+import FastQr.Finite.FormatPosK.P6
+import FastQr.Finite.FormatPosK.P7
 
 namespace FastQr.Finite
 open FastQr Model Spec
 
-/-- the value of the last store to (r, c) in a write list, if any -/
-def lastWrite : List Write → Nat → Nat → Option Nat
-  | [], _, _ => none
-  | w :: ws, r, c =>
-    match lastWrite ws r c with
-    | some b => some b
-    | none => if w.1 = r ∧ w.2.1 = c then some w.2.2 else none
-
-def formatPosOk (v : Nat) (fmt : Nat) : Bool :=
-  let n := Regions.side v
-  let ws := formatWrites n fmt
-  let cells := Regions.formatCells n
-  writesInBounds n ws &&
-  ws.all (fun w => cells.contains (w.1, w.2.1) && mtype w.2.2 == tFormat) &&
-  cells.all (fun rc => Regions.region v rc.1 rc.2 == .format) &&
-  (cells.zipIdx.all fun (rc, i) =>
-    lastWrite ws rc.1 rc.2 == some (mk ((fmt >>> (14 - i % 15)) % 2 == 1) tFormat))
-
 theorem formatPosOk_all :
     ((List.range 40).all fun v => ECL.all.all fun l => (List.range 8).all fun m =>
-      formatPosOk v (T.formatInfo l m)) = true := by native_decide
+      formatPosOk v (T.formatInfo l m)) = true :=
+  all_range40_of_pieces _ formatPosOk_p0 formatPosOk_p1 formatPosOk_p2 formatPosOk_p3 formatPosOk_p4 formatPosOk_p5
+    formatPosOk_p6 formatPosOk_p7
 
 end FastQr.Finite
